@@ -660,14 +660,20 @@ def judge(chk, traces, label, seen, flags, selftest=False):
                               dict(t["replay"], step=len(t["evs"]) + 1))
     if not traces:
         return
-    probes = corrupted_copies([t for t in traces if t["note"] == "plain"]) if selftest else []
-    verdicts = validate(chk, traces + [c for c, m in probes], label, flags)
-    for c, m in probes:
-        got = sorted(set(x[0] for x in verdicts[c["tid"]]["viol"]))
-        if m not in got:
-            tlc.machinery_failure("binding self-test: a trace with a falsified field (%s expected) was judged %r" % (m, got))
-        chk.extra.setdefault("binding_selftest", []).append("falsified trace flagged by %s as expected (also: %s)" % (
-            m, ", ".join(x for x in got if x != m) or "-"))
+    verdicts = validate(chk, traces, label, flags)
+    if selftest:
+        # binding self-test on traces that were accepted as they are: one field falsified, the matching formula must notice
+        clean = [t for t in traces if t["note"] == "plain" and not verdicts[t["tid"]]["viol"] and not verdicts[t["tid"]]["rej"]]
+        probes = corrupted_copies(clean)
+        pv = validate(chk, [c for c, m in probes], label + "_selftest", flags) if probes else {}
+        for c, m in probes:
+            got = sorted(set(x[0] for x in pv[c["tid"]]["viol"]))
+            if m not in got:
+                tlc.machinery_failure("binding self-test: a trace with a falsified field (%s expected) was judged %r" % (m, got))
+            chk.extra.setdefault("binding_selftest", []).append("falsified trace flagged by %s as expected (also: %s)" % (
+                m, ", ".join(x for x in got if x != m) or "-"))
+        if not probes:
+            chk.extra.setdefault("binding_selftest", []).append("skipped (%s): no recorded trace was accepted unchanged" % label)
     classes = chk.extra.setdefault("violation_classes", {})
     for t in traces:
         v = verdicts[t["tid"]]
@@ -1304,14 +1310,19 @@ def conn_judge(chk, traces, flags, label, seen, selftest=False):
     traces = [t for t in traces if t["evs"]]
     if not traces:
         return
-    probes = conn_corrupted(traces) if selftest else []
-    verdicts = conn_validate(chk, traces + [c for c, m in probes], flags, label)
-    for c, m in probes:
-        got = sorted(set(x[0] for x in verdicts[c["tid"]]["viol"]))
-        if m not in got:
-            tlc.machinery_failure("binding self-test (connections): a trace with a falsified field (%s expected) was judged %r" % (m, got))
-        chk.extra.setdefault("binding_selftest", []).append("falsified connection trace flagged by %s as expected (also: %s)" % (
-            m, ", ".join(x for x in got if x != m) or "-"))
+    verdicts = conn_validate(chk, traces, flags, label)
+    if selftest:
+        clean = [t for t in traces if not verdicts[t["tid"]]["viol"] and not verdicts[t["tid"]]["rej"]]
+        probes = conn_corrupted(clean)
+        pv = conn_validate(chk, [c for c, m in probes], flags, label + "_selftest") if probes else {}
+        for c, m in probes:
+            got = sorted(set(x[0] for x in pv[c["tid"]]["viol"]))
+            if m not in got:
+                tlc.machinery_failure("binding self-test (connections): a trace with a falsified field (%s expected) was judged %r" % (m, got))
+            chk.extra.setdefault("binding_selftest", []).append("falsified connection trace flagged by %s as expected (also: %s)" % (
+                m, ", ".join(x for x in got if x != m) or "-"))
+        if not probes:
+            chk.extra.setdefault("binding_selftest", []).append("skipped (connections %s): no recorded trace was accepted unchanged" % label)
     classes = chk.extra.setdefault("violation_classes", {})
     for t in traces:
         v = verdicts[t["tid"]]
